@@ -31,7 +31,7 @@ def register(reg):
         return Ob('gen_' + name, 'C09/gen_entry.cpp', REAL, defines={'GEN': n, 'KEYLEN': klen, 'BS_CAP': klen + 4, 'MODEL_OUT_MAX': 4}, unwind=klen + 6, stubs=gen_stubs, caps='common/entry_caps.h', unwind_rules=[(r'^harness\.', klen + 10), (r'ir_memcpy', 60)], tiers=tiers,
                   desc='generate%s (real): a generated key is LOCAL, carries its KEY_GEN_MECHANISM, ALWAYS_SENSITIVE == SENSITIVE, NEVER_EXTRACTABLE == !EXTRACTABLE, its value is exactly the random bytes (stored encrypted when private), everything in one committed transaction; any failing step leaves no object and no handle' % name,
                   bounds='key of %d bytes (symbolic), template of 0..3 entries (VALUE_LEN, SENSITIVE, EXTRACTABLE; values symbolic); CreateObject is a cut that may fail; storing an attribute may fail' % klen, timeout=900, mem=20)
-    gens = [gen(1, 'AES', 16, ('quick', 'thorough')), gen(2, 'Generic', 3, ('quick', 'thorough')), gen(3, 'DES', 7, ('thorough',)), gen(4, 'DES2', 14, ('thorough',)), gen(5, 'DES3', 21, ('thorough',))]
+    gens = [gen(1, 'AES', 16, ('quick', 'thorough')), gen(2, 'Generic', 3, ('quick', 'thorough')), gen(3, 'DES', 7, ()), gen(4, 'DES2', 14, ()), gen(5, 'DES3', 21, ())]   # DES: the success path needs OSSLDES::generateKey (parity, 8 bytes per 56 bits), which the model factory does not provide: no tier
     for p in ('C01', 'C07'): O[p].append(genwrap)
     for p in ('C08', 'C09', 'C06'): O[p] += gens
     O['C17'] += [reg._c17t(genwrap)] + [reg._c17t(g) for g in gens[:2]]
@@ -90,3 +90,76 @@ def register(reg):
     for p in ('C01', 'C07'): O[p].append(gpw)
     for p in ('C09', 'C08', 'C06'): O[p].append(gpec)
     O['C17'] += [reg._c17t(gpw), reg._c17t(gpec)]
+
+    # ------------------------------------------------------------------ SecureDataManager over a symbolic (Dolev-Yao) model of the primitives
+    SDM_REAL = ['data_mgr/SecureDataManager.cpp', 'data_mgr/ByteString.cpp', 'crypto/SymmetricAlgorithm.cpp', 'crypto/SymmetricKey.cpp', 'crypto/AESKey.cpp']
+    sdm_specs = [  # (op, name, who, description, length tuples (so, us, nw, x): first two quick)
+        (0, 'blank_setsopin', 0, 'blank token: setSOPIN(pin) draws the master key K and writes exactly blob(pin, K) = salt | IV | enc(pbe(pin, salt), IV, magic | K); setUserPIN / empty PIN refused', [(2, 2, 2, 2), (1, 1, 1, 1)]),
+        (1, 'login_so', 0, 'loginSO(x) from an initialised token in ANY login state: succeeds iff x is exactly the SO PIN; success = SO logged in with master key K; failure = nobody logged in, key wiped; blobs untouched', [(2, 2, 2, 2), (2, 1, 2, 1), (1, 2, 2, 2), (2, 2, 2, 0), (1, 1, 1, 1), (2, 2, 2, 1)]),
+        (1, 'login_user', 1, 'loginUser(x) from an initialised token in ANY login state: succeeds iff x is exactly the user PIN (the SO PIN does not open it); success = user logged in with the SAME master key K', [(2, 2, 2, 2), (2, 1, 2, 2), (2, 2, 2, 1), (2, 2, 2, 0), (1, 1, 1, 1), (1, 2, 2, 1)]),
+        (2, 'setuserpin', 0, 'setUserPIN(new) while the SO or the user is logged in: userBlob becomes exactly blob(new, K); SO blob, login state and K untouched; refused without change when nobody is logged in or the PIN is empty', [(2, 2, 2, 2), (2, 2, 1, 2)]),
+        (3, 'encrypt_roundtrip_so', 0, 'attribute encryption (SO logged in): fresh IV prepended, encrypted under the master key, decrypt(encrypt(x)) == x, empty stays empty, nothing without a login', [(2, 2, 2, 2)]),
+        (3, 'encrypt_roundtrip_user', 1, 'attribute encryption (user logged in): fresh IV prepended, encrypted under the master key, decrypt(encrypt(x)) == x, empty stays empty, nothing without a login', [(2, 2, 2, 2)]),
+        (4, 'reauth_so', 0, 'reAuthenticateSO accepts exactly the SO PIN and changes neither login state nor key nor blobs', [(2, 2, 2, 2), (2, 2, 2, 1)]),
+        (4, 'reauth_user', 1, 'reAuthenticateUser accepts exactly the user PIN and changes neither login state nor key nor blobs', [(2, 2, 2, 2), (2, 1, 2, 2)]),
+        (5, 'setsopin', 0, 'setSOPIN(new) by the logged-in SO: soBlob becomes exactly blob(new, K); user blob, login state and K untouched; refused without change unless the SO is logged in and the PIN non-empty', [(2, 2, 2, 2), (2, 2, 1, 2)]),
+    ]
+    def sdm_ob(op, n, who, d, lens, tiers):
+        so, us, nw, x = lens
+        return Ob('sdm_%s_%d%d%d%d' % (n, so, us, nw, x), 'C04/sdm_unit.cpp', SDM_REAL, defines={'OP': op, 'WHO': who, 'BS_CAP': 52, 'SOLEN': so, 'USLEN': us, 'NWLEN': nw, 'XLEN': x}, unwind=56, caps='C04/sdm_caps.h', noinline=True, tiers=tiers,
+                  stubs={'_ZN7RFC488012PBEDeriveKeyERK10ByteStringRS0_PP6AESKey': 'stub_pbe', '_ZN10ByteStringC2EPKc': 'stub_bs_hex', '_ZN10ByteStringC1EPKc': 'stub_bs_hex'},
+                  desc='SecureDataManager (real) over the symbolic primitive model, one call from a constructed state: ' + d,
+                  bounds='PIN lengths (SO, user, new, attempt) = %s bytes, all byte values symbolic; master key 32 symbolic bytes; block size 2 in the model; PBE / AES / RNG are the symbolic models of harness/C04/sdm_unit.cpp' % (lens,), timeout=900, mem=20)
+    sdm = []
+    for (op, n, who, d, lenss) in sdm_specs:
+        for k, lens in enumerate(lenss):
+            sdm.append(sdm_ob(op, n, who, d, lens, ('quick', 'thorough') if k < 2 else ('thorough',)))
+    O['C04'] += sdm; O['C06'] += [o for o in sdm if 'encrypt_roundtrip' in o.name]
+
+    # ------------------------------------------------------------------ deriveDH / deriveECDH / deriveEDDSA bodies
+    da_stubs = dict(reg.GETKEY_STUBS)
+    da_stubs.update(gen_stubs)
+    da_stubs.update({'_ZN7SoftHSM14getDHPublicKeyEP11DHPublicKeyP12DHPrivateKeyR10ByteString': 'sink_getPub', '_ZN7SoftHSM16getECDHPublicKeyEP11ECPublicKeyP12ECPrivateKeyR10ByteString': 'sink_getPub',
+                     '_ZN7SoftHSM16getEDDHPublicKeyEP11EDPublicKeyP12EDPrivateKeyR10ByteString': 'sink_getPub'})
+    def da(fn, fname, kt, seclen, tiers):
+        return Ob('derive_%s_%s' % (fname, kt[4:].lower()), 'C09/derive_asym_entry.cpp', REAL, defines={'FN': fn, 'DKT': kt, 'SECLEN': seclen, 'BS_CAP': seclen + 6, 'MODEL_OUT_MAX': 4}, unwind=seclen + 8, stubs=da_stubs, caps='common/entry_caps.h',
+                  unwind_rules=[(r'^harness\.', seclen + 12), (r'ir_memcpy', 60)], tiers=tiers,
+                  desc='derive%s (real) to a %s key: value = the trailing requested bytes of the shared secret (DES: parity-adjusted), encrypted when private; LOCAL false, ALWAYS_SENSITIVE / NEVER_EXTRACTABLE inherited from the base key and the new flags; a failed derivation (primitive, CreateObject, attribute store, requested length longer than the secret) leaves no object and no handle' % (fname.upper(), kt),
+                  bounds='shared secret of %d symbolic bytes, requested length 0..%d, template of 0..3 entries (VALUE_LEN, SENSITIVE, EXTRACTABLE) with symbolic values; primitive, key-material access and CreateObject are cuts' % (seclen, seclen + 2), timeout=900, mem=20)
+    das = [da(0, 'dh', 'CKK_GENERIC_SECRET', 4, ('quick', 'thorough')), da(0, 'dh', 'CKK_DES', 9, ('quick', 'thorough')), da(1, 'ecdh', 'CKK_GENERIC_SECRET', 4, ('quick', 'thorough')), da(2, 'eddsa', 'CKK_GENERIC_SECRET', 4, ('quick', 'thorough')),
+           da(1, 'ecdh', 'CKK_DES', 9, ('thorough',)), da(0, 'dh', 'CKK_DES2', 17, ('thorough',))]
+    for p in ('C13', 'C09', 'C08'): O[p] += das
+    O['C06'] += das[:1]
+    O['C17'] += [reg._c17t(das[0]), reg._c17t(das[2])]
+
+    # ------------------------------------------------------------------ key material access / import
+    km_stubs = {'_ZN5Token7decryptERK10ByteStringRS0_': 'tag_token_decrypt', '_ZN5Token7encryptERK10ByteStringRS0_': 'det_token_encrypt'}
+    KM_REAL = ENTRY + ['crypto/RSAPrivateKey.cpp']
+    km = [Ob('keymat_' + n, 'C06/keymat_unit.cpp', KM_REAL, defines={'OP': op, 'BS_CAP': 8, 'MODEL_OUT_MAX': 4}, unwind=10, stubs=km_stubs, caps='common/entry_caps.h', unwind_rules=[(r'^harness\.', 12)], desc=d,
+             bounds='one-byte components (symbolic), object private or public (symbolic); Token::decrypt/encrypt = tagging model', timeout=600, mem=16)
+          for (op, n, d) in ((0, 'getsym', 'getSymmetricKey: the value of a private key object is decrypted and exactly the plaintext becomes the key, a failing decryption hands out nothing; a public object\'s value is used as stored'),
+                             (1, 'getrsa', 'getRSAPrivateKey: all eight components, each decrypted when the object is private, each in ITS slot of the key object'),
+                             (2, 'setrsa', 'setRSAPrivateKey (import of an unwrapped key): each decoded component is stored in ITS attribute, encrypted iff the new object is private; failure of the decoder or the store is reported'))]
+    O['C06'] += km; O['C13'] += km[1:]
+
+    # ------------------------------------------------------------------ C17: templates longer than the fixed 32-entry attribute arrays (pointer / bounds checks on)
+    def big(base, n=33):
+        o = Ob.__new__(Ob); o.__dict__.update(base.__dict__)
+        o.name = base.name + '_bigtemplate'; o.defines = dict(base.defines); o.defines['BIGT'] = n; o.checks = True; o.throw_assert = True; o.tiers = ('quick', 'thorough')
+        o.unwind_rules = [(r'^harness\.', n + 8), (r'ir_memcpy', 120), (r'generate|derive|C_UnwrapKey|sink_create|extractObjectInformation', n + 4)]; o.timeout = 900; o.mem = 24
+        o.desc = base.desc + ' - with a template of %d entries (longer than the fixed 32-entry attribute array of the function) and CBMC pointer / bounds checks: nothing is written out of range' % n
+        o.bounds = base.bounds + '; template of %d entries (first three as before, the rest CKA_LABEL)' % n
+        return o
+    unwrap = [o for o in O['C09'] if o.name == 'unwrap_key'][0]
+    bigs = [big(unwrap), big(gens[1]), big(das[0])]
+    O['C17'] += bigs
+
+    # ------------------------------------------------------------------ generateED / generateDH (same harness as generateEC, other key classes)
+    GP_REAL2 = GP_REAL + ['crypto/EDPublicKey.cpp', 'crypto/EDPrivateKey.cpp', 'crypto/DHPublicKey.cpp', 'crypto/DHPrivateKey.cpp', 'crypto/DHParameters.cpp']
+    gpec.real = list(GP_REAL2)
+    def gpk(kind, name):
+        o = Ob.__new__(Ob); o.__dict__.update(gpec.__dict__); o.name = 'genpair_' + name; o.defines = dict(gpec.defines); o.defines['KIND'] = kind
+        o.desc = gpec.desc.replace('generateEC', 'generate' + name); return o
+    gped, gpdh = gpk(2, 'ED'), gpk(3, 'DH')
+    gpdh.tiers = ()       # generateDH: no verdict at 40 GB (kept for experiments with --any-tier)
+    for p in ('C09', 'C08', 'C06'): O[p] += [gped, gpdh]
